@@ -1,6 +1,6 @@
 (* C03 -- a Stack created with capacity k never holds more than k elements.
    Property theorems only; proofs in StackCorollaries.v / StackRefine.v. *)
-From Stackage Require Import Base Generated StackImpl StackSpec StackSpecLemmas StackRefine StackCorollaries.
+From Stackage Require Import Base Generated StackImpl StackSpec StackSpecLemmas StackRefine StackCorollaries TransferImpl TransferSpec TransferProofs.
 Open Scope Z_scope.
 
 (* Every state reachable from a constructor call with capacity k >= 1 by ANY
@@ -74,6 +74,23 @@ Theorem c03_insert_full_noop :
       step V nilv isnil isstack pol (mk V c els) (OInsert v i) = Ok (mk V c els, RBool false).
 Proof. exact insert_full_noop. Qed.
 Print Assumptions c03_insert_full_noop.
+
+(* Transfer-into respects the destination's capacity as well: whatever the
+   source holds, the destination stays well-formed and within its capacity *)
+Theorem c03_transfer_into_within_capacity :
+  forall (V : Type) (nilv : V) (isnil isstack : V -> bool) (pol : N -> V -> option N),
+    isnil nilv = true ->
+    forall (cs : scfg) (es : list V) (cd : scfg) (dels : list V),
+      zlen es < Bnd -> zlen dels + zlen es < Bnd -> cap_ok cd (zlen dels) ->
+      exists cd' dels' ok,
+        Transfer V nilv isnil isstack pol (mk V cs es) (Some (mk V cd dels)) = Ok (Some (mk V cd' dels'), ok) /\
+        cap_ok cd' (zlen dels').
+Proof.
+  intros V nilv isnil isstack pol H1 cs es cd dels Hs Hd Hc.
+  destruct (transfer_refines V nilv isnil isstack pol H1 cs es cd dels Hs Hd Hc) as (cd' & dels' & ok & T & _ & C).
+  exists cd', dels', ok. auto.
+Qed.
+Print Assumptions c03_transfer_into_within_capacity.
 
 (* the specification itself keeps within capacity under every operation *)
 Theorem c03_spec_within :
